@@ -77,6 +77,11 @@ func (e *ContainerEdits) Apply(spec *oci.Spec) error {
 		return nil
 	}
 
+	if spec.Process != nil && len(e.Env) > 0 {
+		// The generator only recognizes variables it has added itself. Drop the
+		// existing definitions of the variables we are about to (re)define.
+		spec.Process.Env = dropEnv(spec.Process.Env, e.Env)
+	}
 	specgen := ocigen.NewFromSpec(spec)
 	if len(e.Env) > 0 {
 		specgen.AddMultipleProcessEnv(e.Env)
@@ -160,6 +165,21 @@ func (e *ContainerEdits) Apply(spec *oci.Spec) error {
 	}
 
 	return nil
+}
+
+// dropEnv returns env without the variables defined by edits.
+func dropEnv(env, edits []string) []string {
+	names := map[string]struct{}{}
+	for _, v := range edits {
+		names[strings.SplitN(v, "=", 2)[0]] = struct{}{}
+	}
+	kept := make([]string, 0, len(env))
+	for _, v := range env {
+		if _, ok := names[strings.SplitN(v, "=", 2)[0]]; !ok {
+			kept = append(kept, v)
+		}
+	}
+	return kept
 }
 
 // Validate container edits.
